@@ -90,6 +90,9 @@ class OpenVpnPacketBase(ParsableBase):
         if self.packet_id_array:
             composer.compose_numeric_array(self.packet_id_array, 4)
             composer.compose_numeric(self.remote_session_id, 8)
+        elif self.remote_session_id is not None:
+            # the remote session id is part of the acknowledgement section: without packet ids it has no place
+            raise InvalidValue(self.remote_session_id, type(self), 'remote_session_id')
 
         return composer.composed_bytes
 
